@@ -702,7 +702,16 @@ class DefaultModelInputConverter(ModelInputConverter):
       self, array: np.ndarray
   ) -> List[Optional[pyvizier.ParameterValue]]:
     """Convert and clip to the nearest feasible parameter values."""
-    array = self.scaler.backward_fn(self.onehot_encoder.backward_fn(array))
+    array = self.onehot_encoder.backward_fn(array)
+    spec = self.scaler.output_spec
+    if self._should_clip and spec.type == NumpyArraySpecType.CONTINUOUS:
+      # Clip in the scaled space first, so that un-scaling a large but finite
+      # feature cannot overflow into inf (which would be reported as a missing
+      # parameter below). NaN / inf inputs are left untouched.
+      array = np.where(
+          np.isfinite(array), np.clip(array, spec.bounds[0], spec.bounds[1]), array
+      )
+    array = self.scaler.backward_fn(array)
     return [self._to_parameter_value(v) for v in list(array.flatten())]
 
   def _convert_index(self, trial: pyvizier.TrialSuggestion):
